@@ -484,10 +484,12 @@ func (d *ContactsD) Call(buf []byte, offs int, eof bool) (int, sipsp.ErrorHdr) {
 }
 func (d *ContactsD) Snap(r *Rec, buf []byte) { SnapContacts(r, &d.C) }
 func (d *ContactsD) Reset(how int) {
-	d.C.Reset()
+	// Init is the list's init operation: on its own it must leave the object like a new one (C12)
 	if how == ByInit && d.cfg.ConCap >= 0 {
 		d.C.Init(d.vals)
+		return
 	}
+	d.C.Reset()
 }
 func (d *ContactsD) Continues(err sipsp.ErrorHdr) bool { return err == sipsp.ErrHdrOk }
 
@@ -585,9 +587,10 @@ func (d *URIParamsD) Snap(r *Rec, buf []byte) {
 	SnapURIParams(r, &d.L)
 }
 func (d *URIParamsD) Reset(how int) {
-	d.L.Reset()
 	if how == ByInit && d.cfg.ParCap >= 0 {
 		d.L.Init(d.arr)
+	} else {
+		d.L.Reset()
 	}
 	d.vno = 0
 }
@@ -609,9 +612,10 @@ func (d *URIHdrsD) Snap(r *Rec, buf []byte) {
 	SnapURIHdrs(r, &d.L)
 }
 func (d *URIHdrsD) Reset(how int) {
-	d.L.Reset()
 	if how == ByInit && d.cfg.ParCap >= 0 {
 		d.L.Init(d.arr)
+	} else {
+		d.L.Reset()
 	}
 	d.vno = 0
 }
@@ -846,9 +850,8 @@ func (d *NameAddrD) Reinit(c Cfg) { d.cfg = c; d.Reset(ByInit) }
 func (d *ContactsD) Reinit(c Cfg) {
 	ov := d.vals
 	d.cfg = c
-	d.C.Reset()
 	d.vals = d.pool.takeVals(c.ConCap)
-	d.C.Init(d.vals)
+	d.C.Init(d.vals) // the init operation alone
 	d.pool.give(nil, ov)
 }
 func (d *PAIsD) Reinit(c Cfg)   { d.Reset(ByInit) }
@@ -861,7 +864,6 @@ func (d *TokParamD) Reinit(c Cfg) {
 }
 func (d *URIParamsD) Reinit(c Cfg) {
 	d.cfg = c
-	d.L.Reset()
 	d.arr = nil
 	if c.ParCap >= 0 {
 		d.arr = mkParams(c.ParCap)
@@ -871,7 +873,6 @@ func (d *URIParamsD) Reinit(c Cfg) {
 }
 func (d *URIHdrsD) Reinit(c Cfg) {
 	d.cfg = c
-	d.L.Reset()
 	d.arr = nil
 	if c.ParCap >= 0 {
 		d.arr = mkUHdrs(c.ParCap)
